@@ -2,6 +2,7 @@ import St4sd.Model.Validate
 import St4sd.Lemmas.C11Expand
 import St4sd.Lemmas.C11Vars
 import St4sd.Lemmas.C11Loop
+import St4sd.Lemmas.C11Float
 import St4sd.Gen.C11
 /-!
 # C11 — A workflow that loads is structurally executable; a broken one is rejected
@@ -601,6 +602,93 @@ theorem wrongType_rejected (tbl sch) (d : Doc) (hf : wrongType tbl sch d) : vali
   obtain ⟨e, he, hh⟩ := wrongType_hard (hu o ho)
   rw [hall e he] at hh; cases hh
 
+/-! ## a YAML float for an option whose declaration admits no float (`numberProcesses: 2.5`, `gpus: 3.0`) -/
+
+/-- a float — whole or not — somewhere in an option tree AS WRITTEN (before the type conversion), below known keys,
+at a key whose rule admits no float (`mayAdmitFloat`: no `float` type rule, no predicate that holds for floats, in
+no alternative) -/
+inductive FloatAt : Schema → Val → Prop where
+  | here {s i f} : mayAdmitFloat s = false → FloatAt s (.float i f)
+  | deeper {entries kvs k o s v} : (k, o, s) ∈ entries → lookup k kvs = some v → FloatAt s v →
+      FloatAt (.dict entries) (.dict kvs)
+def floatMistyped (sch : Schema) (d : Doc) : Prop := ∃ c ∈ d.comps, FloatAt sch c.opts
+
+private theorem floatAt_hard {s : Schema} {v : Val} (h : FloatAt s v) :
+    ∀ o, (o = v ∨ ∃ c, convert c v = some o) → (∃ e ∈ check s o, e.isMissing = false) ∧ o ≠ .null := by
+  induction h with
+  | @here s i f hm =>
+    intro o ho
+    have : o = .float i f := by
+      rcases ho with ho | ⟨c, ho⟩
+      · exact ho
+      · rw [convert_float] at ho; cases ho; rfl
+    subst this
+    exact ⟨⟨.valueInvalid, check_float s i f hm, rfl⟩, fun h => by cases h⟩
+  | @deeper entries kvs k o' s v hm hl _ ih =>
+    intro o ho
+    -- the converted tree is a dictionary in which `k` carries the value of `k` converted (or untouched)
+    have hshape : ∃ kvs' v', o = .dict kvs' ∧ lookup k kvs' = some v' ∧ (v' = v ∨ ∃ c, convert c v = some v') := by
+      rcases ho with ho | ⟨c, ho⟩
+      · exact ⟨kvs, v, ho, hl, .inl rfl⟩
+      · cases c with
+        | leaf ck => rw [convert_leaf_dict] at ho; cases ho; exact ⟨kvs, v, rfl, hl, .inl rfl⟩
+        | node es =>
+          rw [convert_node_dict] at ho
+          cases hm' : mapKvs (fun k v => convLookup es k v) kvs with
+          | none => rw [hm'] at ho; cases ho
+          | some kvs' =>
+            rw [hm'] at ho; cases ho
+            obtain ⟨v', h1, h2⟩ := lookup_mapKvs hm' hl
+            exact ⟨kvs', v', rfl, h1, convLookup_cases es k v v' h2⟩
+    obtain ⟨kvs', v', rfl, hl', hv'⟩ := hshape
+    obtain ⟨⟨e, he, hh⟩, hnn⟩ := ih v' hv'
+    refine ⟨⟨e, ?_, hh⟩, fun h => by cases h⟩
+    rw [check, List.mem_append]
+    right
+    exact mem_checkEntries hm hl' hnn e he
+
+/-- **floatMistype_rejected** (full): for EVERY conversion table, every schema and every document — a component
+that gives a float, whole (`3.0`) or not (`2.5`), for an option whose declaration admits no float is rejected.  No
+entry of the conversion table can rescue the value: the conversion pre-pass never turns a float into something
+else (it would have to truncate `2.5` to `2`), so the schema check sees the float the author wrote. -/
+theorem floatMistype_rejected (tbl sch) (d : Doc) (hf : floatMistyped sch d) : validate tbl sch d ≠ [] := by
+  intro h
+  obtain ⟨c, hc, hu⟩ := hf
+  obtain ⟨o, ho, hall⟩ := optErrors_nil (compErrors_nil ((validate_nil h).2.1 c hc)).1
+  obtain ⟨⟨e, he, hh⟩, _⟩ := floatAt_hard hu o (.inr ⟨_, ho⟩)
+  rw [hall e he] at hh; cases hh
+
+/-- the option tree `{p₀: {… {pₙ: <float>}}}` along a path of the schema that ends at such a rule -/
+theorem floatAt_treeAt (p : List S) (sch s : Schema) (i : Int) (f : Bool) (hs : schemaAt sch p = some s)
+    (hm : mayAdmitFloat s = false) : FloatAt sch (treeAt p (.float i f)) := by
+  induction p generalizing sch with
+  | nil => rw [schemaAt] at hs; cases hs; exact .here hm
+  | cons k rest ih =>
+    cases sch with
+    | dict entries =>
+      rw [schemaAt] at hs
+      cases he : entryOf k entries with
+      | none => rw [he] at hs; cases hs
+      | some s1 =>
+        rw [he] at hs
+        obtain ⟨o, ho⟩ := entryOf_mem he
+        exact .deeper ho (by simp [lookup]) (ih s1 hs)
+    | null => simp [schemaAt] at hs
+    | const _ => simp [schemaAt] at hs
+    | ty _ => simp [schemaAt] at hs
+    | pred _ => simp [schemaAt] at hs
+    | opt _ => simp [schemaAt] at hs
+    | or _ => simp [schemaAt] at hs
+    | many _ => simp [schemaAt] at hs
+
+/-- **float_for_option_rejected** (full): the single fault "mistype option `p` with a float" — for every table,
+schema, path `p` of the schema whose rule admits no float, float value and document with a component whose options
+are `{p: <float>}` -/
+theorem float_for_option_rejected (tbl sch) (d : Doc) (c : Comp) (p : List S) (s : Schema) (i : Int) (f : Bool)
+    (hc : c ∈ d.comps) (ho : c.opts = treeAt p (.float i f)) (hs : schemaAt sch p = some s)
+    (hm : mayAdmitFloat s = false) : validate tbl sch d ≠ [] :=
+  floatMistype_rejected tbl sch d ⟨c, hc, ho ▸ floatAt_treeAt p sch s i f hs hm⟩
+
 /-! ## Packages with DoWhile documents (`Model/ValidateLoop.lean`) -/
 
 /-- the fault classes of the property text inside a DoWhile document -/
@@ -726,6 +814,36 @@ theorem toBool_rejects_words (s : S) (v : Val) (h : convLeaf .toBool (.str s) = 
     · rename_i _ h1; simp only [List.contains_eq_mem, List.mem_cons, List.mem_nil_iff, or_false, decide_eq_true_eq] at h1
       rcases h1 with h1 | h1 <;> simp [h1]
     · cases h
+
+/-- may the rule at the end of an option path of the source's schema validate a float? -/
+private def floatAdmittedAt (p : List S) : Bool :=
+  match schemaAt Gen.C11.componentSchema p with
+  | some s => mayAdmitFloat s
+  | none => true
+
+/-- For every option key of the schema in the source and the floats 2.5, 0.5, 1.9, 3.0, -1.5: the float given for
+that option (in an otherwise empty component) is reported exactly when the rule of the option admits no float. -/
+theorem float_reported_iff_not_admitted :
+    ∀ p ∈ Gen.C11.optionPaths,
+      ∀ v ∈ [Val.float 2 true, Val.float 0 true, Val.float 1 true, Val.float 3 false, Val.float (-1) true],
+        (optErrors Gen.C11.convTable Gen.C11.componentSchema (treeAt p v)).isEmpty = floatAdmittedAt p := by
+  decide +kernel
+
+/-- Every option the source converts with `int`/`optional_int` (numberProcesses, numberThreads, ranksPerNode,
+threadsPerCore, gpus, replicate, repeatRetries, maxRestarts, gracePeriod, …) has a rule that admits no float —
+so `float_for_option_rejected` applies to it — except `repeatInterval`, whose rule lists `float`. -/
+theorem int_converted_options_admit_no_float :
+    ∀ p ∈ Gen.C11.optionPaths,
+      (convKindAt Gen.C11.convTable p == some .int || convKindAt Gen.C11.convTable p == some .optionalInt) = true →
+        (p == ["workflowAttributes".toList, "repeatInterval".toList] || !floatAdmittedAt p) = true := by
+  decide +kernel
+
+/-- … and there are such options (the list is not empty: at least nine) -/
+theorem int_converted_options_exist :
+    (Gen.C11.optionPaths.filter (fun p =>
+      (convKindAt Gen.C11.convTable p == some .int || convKindAt Gen.C11.convTable p == some .optionalInt)
+        && !floatAdmittedAt p)).length ≥ 9 := by
+  decide +kernel
 
 /-! ## Non-vacuity: concrete documents -/
 
@@ -875,6 +993,27 @@ example : (validate Gen.C11.convTable Gen.C11.componentSchema
     (withOpts (.dict [("resourceRequest".toList, .dict [("numberThreads".toList, .list [.str "zzz".toList])])]))).isEmpty
     = false := by
   decide +kernel
+
+/-! ### floats for integer options -/
+
+private def rrOpts (key : String) (v : Val) : Val := .dict [("resourceRequest".toList, .dict [(key.toList, v)])]
+
+/-- `numberProcesses: 2.5` and `gpus: 3.0` are instances of the fault class, and rejected; `numberProcesses: 2`,
+`walltime: 2.5` and `memory: 2.5` load -/
+example : floatMistyped Gen.C11.componentSchema (withOpts (rrOpts "numberProcesses" (.float 2 true))) :=
+  ⟨_, .head _, floatAt_treeAt ["resourceRequest".toList, "numberProcesses".toList] _
+    (.or [.ty [.int], .pred .isVarReference]) 2 true rfl rfl⟩
+example : validate Gen.C11.convTable Gen.C11.componentSchema (withOpts (rrOpts "numberProcesses" (.float 2 true)))
+    = [Err.option (0, "src".toList) .valueInvalid] := by decide +kernel
+example : validate Gen.C11.convTable Gen.C11.componentSchema (withOpts (rrOpts "gpus" (.float 3 false)))
+    = [Err.option (0, "src".toList) .valueInvalid] := by decide +kernel
+example : validate Gen.C11.convTable Gen.C11.componentSchema (withOpts (rrOpts "numberProcesses" (.int 2))) = [] := by
+  decide +kernel
+example : validate Gen.C11.convTable Gen.C11.componentSchema (withOpts (rrOpts "memory" (.float 2 true))) = [] := by
+  decide +kernel
+example : validate Gen.C11.convTable Gen.C11.componentSchema
+    (withOpts (.dict [("resourceManager".toList, .dict [("config".toList, .dict [("walltime".toList, .float 2 true)])])]))
+    = [] := by decide +kernel
 
 /-! ### a package with a DoWhile document -/
 
